@@ -125,6 +125,29 @@ def cases(tier, seed):
         cfg = {'hold': 90, 'routes': 0, 'families': [(1, 1)]}
         steps = [['accept', 20.0], ['wait_msg', rw.OPEN, 5.0], ['mark', 'open-seen'], ['wait_closed', W + 5.0], ['sleep', 0.2]]
         out.append({'kind': 'openwait', 'config': cfg, 'steps': steps, 'W': W, 'env': {'bgp.openwait': W}, 'quantum': 0.0002, 'vtimeout': 100, 'wall': 90})
+    # (6) silence in OPENCONFIRM: both OPENs exchanged (H is negotiated), the remote never sends its KEEPALIVE
+    for ours, theirs in ([(3, 3), (9, 30), (30, 10)] if tier == 'quick' else [(a, b) for a in (3, 5, 9, 30, 90) for b in (3, 10, 90)]):
+        H = min(ours, theirs)
+        cfg = {'hold': ours, 'peer_hold': theirs, 'routes': 2, 'families': [(1, 1)]}
+        steps = [['accept', 20.0], ['wait_msg', rw.OPEN, 5.0], ['open'], ['mark', 'open-sent'], ['wait_closed', H + 6.0], ['sleep', 0.2]]
+        out.append({'kind': 'openconfirm', 'config': cfg, 'steps': steps, 'H': H, 'pair': [ours, theirs], 'quantum': 0.0002 if H <= 10 else 0.002, 'vtimeout': 2 * H + 60, 'wall': 120})
+    out.append({'kind': 'openconfirm', 'config': {'hold': 0, 'peer_hold': 90, 'routes': 2, 'families': [(1, 1)]}, 'H': 0, 'pair': [0, 90], 'quantum': 0.01, 'vtimeout': 500, 'wall': 120,
+                'steps': [['accept', 20.0], ['wait_msg', rw.OPEN, 5.0], ['open'], ['mark', 'open-sent'], ['sleep', 300.0], ['mark', 'idle-end'], ['eof']]})
+    # (7) bytes which never complete a message do not count as "something received"
+    for H in ([3, 9] if tier == 'quick' else [3, 5, 9, 30]):
+        cfg = {'hold': H, 'peer_hold': H, 'routes': 2, 'families': [(1, 1)]}
+        steps = [['accept', 20.0], ['establish'], ['sleep', 0.3], ['send', rw.keepalive().hex()], ['mark', 'last-sent']]
+        part = (b'\xff' * 16 + struct.pack('!HB', 4000, 2) + b'\0' * 64)  # the start of an UPDATE of 4000 bytes
+        tr = []
+        for i in range(0, min(len(part), 2 * H + 8)):
+            tr += [part[i : i + 1].hex(), 0.5]
+        steps += [['sendseg', tr], ['wait_closed', 4.0], ['sleep', 0.2]]
+        out.append({'kind': 'trickle', 'config': cfg, 'steps': steps, 'H': H, 'quantum': 0.0002 if H <= 10 else 0.002, 'vtimeout': 4 * H + 60, 'wall': 120})
+    # (8) the remote stops reading while ExaBGP has a long batch to write (small socket buffers: the writer blocks) and stays silent
+    for H in ([3, 9] if tier == 'quick' else [3, 5, 9, 30]):
+        cfg = {'hold': H, 'peer_hold': H, 'families': [(1, 1)], 'routes': 6000, 'group_updates': False}
+        steps = [['accept', 20.0], ['sndbuf', 4096], ['establish'], ['stop_reading'], ['mark', 'silent'], ['sleep', H + G + 0.5], ['mark', 'deadline'], ['sleep', 3.0], ['mark', 'resume'], ['resume_reading'], ['wait_closed', 20.0], ['sleep', 0.2]]
+        out.append({'kind': 'blocked-writer', 'config': cfg, 'steps': steps, 'H': H, 'rcvbuf': 4096, 'quantum': 0.0002 if H <= 10 else 0.002, 'vtimeout': 4 * H + 100, 'wall': 150})
     return out
 
 
@@ -225,6 +248,71 @@ def judge(res: Result, case, rec):
         else:
             res.ok(cls, ('h0', tuple(case['pair']), case['T']))
         return
+    if kind == 'openconfirm':
+        cls = f'openconfirm:H{H}'
+        t_open = [t for t, ln, ty in sess['tx'] if ty == rw.OPEN]
+        confirm = [e['t'] for e in rec['events'] if e['kind'] == 'fsm' and e['dst'] == 'OPENCONFIRM']
+        if not t_open or not confirm:
+            res.inconclusive.append(f'openconfirm: OPENCONFIRM not reached {rec["notes"]}')
+            return
+        if H == 0:
+            if nts or sess['eof_at'] is not None:
+                res.violation('C12/h0-openconfirm-ended', f'hold time 0 negotiated but the attempt ended in OPENCONFIRM: {nts} eof={sess["eof_at"]}', wit, cls)
+            else:
+                res.ok(cls, ('openconfirm', 0))
+            return
+        hold = [n for n in nts if (n[1], n[2]) == (4, 0)]
+        if not hold:
+            res.violation('C12/no-hold-expiry:openconfirm', f'H={H}: OPENs exchanged, remote silent for {rec["end"] - t_open[0]:.1f}s without its KEEPALIVE, no 4/0 (got {nts}, closed={sess["eof_at"]})', wit, cls)
+            return
+        silence = hold[0][0] - t_open[0]
+        if silence <= H:
+            res.violation('C12/hold-fires-early:openconfirm', f'H={H}: 4/0 after only {silence:.3f}s of silence in OPENCONFIRM', wit, cls)
+        elif silence > H + G:
+            res.violation('C12/hold-fires-late:openconfirm', f'H={H}: 4/0 after {silence:.3f}s of silence in OPENCONFIRM (> H+G)', wit, cls)
+        else:
+            res.ok(cls, ('openconfirm', tuple(case['pair']), round(silence - H, 1)))
+        return
+    if kind == 'trickle':
+        cls = f'trickle:H{H}'
+        t_last = [e['t'] for e in rec['events'] if e['kind'] == 'mark' and e.get('name') == 'last-sent'][0]
+        hold = [n for n in nts if (n[1], n[2]) == (4, 0)]
+        if not hold:
+            res.violation('C12/no-hold-expiry:partial-message', f'H={H}: only bytes of a never completed message for {rec["end"] - t_last:.1f}s, no 4/0 (got {nts}, closed={sess["eof_at"]})', wit, cls)
+            return
+        silence = hold[0][0] - t_last
+        if silence <= H - 0.01:
+            res.violation('C12/hold-fires-early', f'H={H}: 4/0 after only {silence:.3f}s', wit, cls)
+        elif silence > H + G:
+            res.violation('C12/hold-fires-late:partial-message', f'H={H}: 4/0 {silence:.3f}s after the last complete message (> H+G) while bytes of an incomplete message kept arriving', wit, cls)
+        else:
+            res.ok(cls, ('trickle', H, round(silence - H, 1)))
+        return
+    if kind == 'blocked-writer':
+        cls = f'blocked-writer:H{H}'
+        marks = {e['name']: e for e in rec['events'] if e['kind'] == 'mark'}
+        if 'deadline' not in marks or 'resume' not in marks:
+            res.inconclusive.append('blocked-writer: marks missing')
+            return
+        dl = marks['deadline']
+        # precondition: a write was started and had not returned for the whole silence (the writer really was blocked)
+        blocked = dl['writes_started'] > dl['writes_done'] and marks['resume']['writes_done'] == dl['writes_done']
+        if not blocked:
+            res.count('blocked-writer:writer-never-blocked')
+            left = [e['t'] for e in rec['events'] if e['kind'] == 'fsm' and e['src'] == 'ESTABLISHED']
+            if left and left[0] - last_tx <= H + G:
+                res.ok(f'unblocked-writer:H{H}', ('unblocked', H))
+            return
+        closes = [e['t'] for e in rec['events'] if e['kind'] == 'conn-close']
+        left = [e['t'] for e in rec['events'] if e['kind'] == 'fsm' and e['src'] == 'ESTABLISHED']
+        t_end = min(closes + left) if closes + left else None
+        wit.update(conn_close=closes, left_established=left, deadline=dl['t'], resume=marks['resume']['t'])
+        if t_end is None or t_end - last_tx > H + G:
+            after = 'never' if t_end is None else f'{t_end - last_tx:.2f}s after the last message, once the remote read again'
+            res.violation('C12/hold-starved-by-blocked-writer', f'H={H}: the remote stopped reading and sending while a batch was being written; the session was ended {after} (limit H+G={H + G})', wit, cls)
+        else:
+            res.ok(cls, ('blocked', H))
+        return
     if kind == 'openwait':
         cls = f'openwait:W{case["W"]}'
         t0 = [e['t'] for e in rec['events'] if e['kind'] == 'mark' and e.get('name') == 'open-seen'][0]
@@ -259,7 +347,7 @@ def run_shard(desc):
 
 
 def finish(merged, tier, seed):
-    need = ['silence', 'gaps', 'ka:idle', 'ka:outbound', 'ka:inbound', 'h0', 'openwait']
+    need = ['silence', 'gaps', 'ka:idle', 'ka:outbound', 'ka:inbound', 'h0', 'openwait', 'openconfirm', 'trickle', 'blocked-writer']
     for n in need:
         if not any(c.startswith(n) and v for c, v in merged['classes'].items()):
             merged['inconclusive'].append(f'scenario class never judged: {n}')
